@@ -1,6 +1,7 @@
 package main
 
 import (
+	"encoding/json"
 	"fmt"
 	"strings"
 	"time"
@@ -15,19 +16,24 @@ var optionSets = []flatOpts{
 // flattenCase builds the child request for one (bundle, option set).
 func flattenCase(g *Gen, o flatOpts, plus bool, repeats, permutes int, faults bool) any {
 	anon := !o.Expand
-	b := genBundle(g, BundleOpts{Plus: plus, AnonOK: anon, SharedOK: anon && !o.RemoveUnused, MaxAux: 3})
-	if len(b.Aux) == 0 && g.p(0.5) && !o.Expand {
+	// KeepNames applies to single-document bundles: decided first, so that half of them use plain names only
+	keep := !o.Expand && g.p(0.2)
+	bo := BundleOpts{Plus: plus, AnonOK: anon, SharedOK: anon && !o.RemoveUnused, MaxAux: 3}
+	if keep {
+		bo.MaxAux = 0
+		bo.Plain = g.p(0.5)
 		o.KeepNames = true
 	}
+	b := genBundle(g, bo)
 	aux := M{}
 	for k, v := range b.Aux {
 		aux[k] = v
 	}
-	return M{"bundle": M{"root": b.Root, "aux": aux}, "opts": o.toJSON(), "repeats": repeats, "permutes": permutes, "faults": faults}
+	return M{"bundle": M{"root": b.Root, "aux": aux}, "opts": o.toJSON(), "repeats": repeats, "permutes": permutes, "faults": faults, "plainNames": bo.Plain}
 }
 
 // which Go-side clauses each property looks at
-func flattenFindings(c *Case) []Finding {
+func flattenFindings(c *Case, cyclic bool) []Finding {
 	var fs []Finding
 	o := optsOf(get(c.In, "opts"))
 	sig := func(s string) string { return "flatten:" + s + ":" + o.String() }
@@ -80,8 +86,7 @@ func flattenFindings(c *Case) []Finding {
 			}
 		}
 	}
-	if ctxProp == "C07" || ctxProp == "C05" || ctxProp == "" {
-		cyclic, _ := get(c.In, "cyclic").(bool)
+	if ctxProp == "C07" || (ctxProp == "C05" && o.Expand) || ctxProp == "" {
 		if !(o.Expand && cyclic) {
 			reps, _ := get(r, "repeats").([]any)
 			for _, e := range reps {
@@ -123,4 +128,111 @@ func errClass(e string) string {
 
 func flattenBatch(timeout time.Duration) func(ins []any) []any {
 	return func(ins []any) []any { return runInChildren("flatten", ins, timeout, 14) }
+}
+
+// flattenDriverIn builds what the Lean validators need: input and output bundles in serialization normal form, with the
+// tables of external functions ($ref resolution, canonical spellings, format registry).
+func flattenDriverIn(c *Case) any {
+	out := get(c.Impl, "ok", "out")
+	if out == nil {
+		return M{"skip": true}
+	}
+	root, err := normDoc(get(c.In, "bundle", "root"))
+	if err != nil {
+		return M{"skip": true}
+	}
+	inDocs := M{"": root}
+	inRefs := M{"": refTargets(root, "")}
+	outDocs := M{"": out}
+	outRefs := M{"": refTargets(out, "")}
+	for p, d := range auxOf(get(c.In, "bundle", "aux")) {
+		n := normAux(d)
+		if n == nil {
+			return M{"skip": true}
+		}
+		inDocs[p] = n
+		inRefs[p] = refTargets(n, p)
+		outDocs[p] = n
+		outRefs[p] = inRefs[p]
+	}
+	refToks := M{}
+	for r, t := range outRefs[""].(M) {
+		refToks[r] = get(t, "tokens")
+	}
+	return M{
+		"in":    M{"docs": inDocs, "refs": inRefs},
+		"out":   M{"docs": outDocs, "refs": outRefs},
+		"opts":  get(c.In, "opts"),
+		"canon": canonicalDefRefs(out),
+		"ext":   M{"knownFormats": knownFormatsIn(out), "refTokens": refToks},
+	}
+}
+
+// flattenLeanFindings: the clauses decided by the Lean validators.
+func flattenLeanFindings(c *Case, v any) []Finding {
+	var fs []Finding
+	if get(c.Impl, "ok", "out") == nil || v == nil {
+		return nil
+	}
+	if s, _ := get(v, "skip").(bool); s {
+		return nil
+	}
+	o := optsOf(get(c.In, "opts"))
+	sig := func(s string) string { return "flatten:" + s + ":" + o.String() }
+	want := func(ps ...string) bool {
+		if ctxProp == "" {
+			return true
+		}
+		for _, p := range ps {
+			if p == ctxProp {
+				return true
+			}
+		}
+		return false
+	}
+	if want("C01", "C04", "C05", "C06") {
+		if ok, _ := get(v, "meaning", "ok").(bool); !ok {
+			fs = append(fs, Finding{Kind: "property", Detail: fmt.Sprintf("Flatten (%s) changed the meaning of the API: first difference %s, missing definitions %s, top-level keys equal: %v", o, canonStr(get(v, "meaning", "firstDifference")), canonStr(get(v, "meaning", "missingDefinitions")), get(v, "meaning", "topKeysEqual")), Signature: sig("meaning")})
+		}
+	}
+	if !o.Expand && want("C02", "C04") {
+		if nc, _ := get(v, "nonCanonical").([]any); len(nc) > 0 {
+			fs = append(fs, Finding{Kind: "property", Detail: fmt.Sprintf("after Flatten (%s) some $ref is not a canonical reference to a present definition held by a schema: %s", o, truncate(canonStr(nc), 300)), Signature: sig("non-canonical-ref")})
+		}
+	}
+	if !o.Expand && !o.Minimal && want("C03", "C04") {
+		if ic, _ := get(v, "inlineComplex").([]any); len(ic) > 0 {
+			fs = append(fs, Finding{Kind: "property", Detail: fmt.Sprintf("after full Flatten (%s) a complex schema remains inline at %s", o, truncate(canonStr(ic), 300)), Signature: sig("inline-complex")})
+		}
+		olds, _ := get(v, "oldDefinitions").([]any)
+		news, _ := get(v, "newDefinitions").([]any)
+		for _, n := range news {
+			for _, old := range olds {
+				if strings.EqualFold(fmt.Sprint(n), fmt.Sprint(old)) {
+					fs = append(fs, Finding{Kind: "property", Detail: fmt.Sprintf("Flatten (%s) created definition %q which equals the existing %q up to letter case", o, n, old), Signature: sig("name-clash")})
+				}
+			}
+		}
+	}
+	if o.Expand && want("C05") {
+		if nl, _ := get(v, "nonLocal").([]any); len(nl) > 0 {
+			fs = append(fs, Finding{Kind: "property", Detail: fmt.Sprintf("after Flatten (%s) a remaining $ref does not target an existing local definition: %s", o, truncate(canonStr(nl), 300)), Signature: sig("expand-nonlocal-ref")})
+		}
+		cyc, _ := get(v, "cyclicInput").(bool)
+		if n, _ := get(v, "refCount").(json.Number); !cyc && n.String() != "0" {
+			fs = append(fs, Finding{Kind: "property", Detail: fmt.Sprintf("the bundle has no $ref cycle but Flatten (%s) left %s $ref(s)", o, n), Signature: sig("expand-leftover-ref")})
+		}
+	}
+	if o.RemoveUnused && want("C06") {
+		if e, _ := get(v, "sharedSectionsEmpty").(bool); !e {
+			fs = append(fs, Finding{Kind: "property", Detail: fmt.Sprintf("after Flatten (%s) shared parameters/responses remain", o), Signature: sig("shared-remains")})
+		}
+		if u, _ := get(v, "unreferenced").([]any); len(u) > 0 {
+			fs = append(fs, Finding{Kind: "property", Detail: fmt.Sprintf("after Flatten (%s) definitions %s are referred to by nothing", o, canonStr(u)), Signature: sig("unused-remains")})
+		}
+		if nl, _ := get(v, "nonLocal").([]any); len(nl) > 0 {
+			fs = append(fs, Finding{Kind: "property", Detail: fmt.Sprintf("after Flatten (%s) a $ref dangles: %s", o, truncate(canonStr(nl), 300)), Signature: sig("dangling-ref")})
+		}
+	}
+	return fs
 }
